@@ -152,9 +152,19 @@ func propReplay(c ReplayCase) (o pbt.Outcome) {
 			tcpCopy = raw[:segs[0].Ext.End]
 		}
 	} else {
-		dgrams, _ := pn.Snapshot()
+		// what the attacker copies is traffic the server has already taken off
+		// its socket: a datagram still waiting in the socket queue when the copy
+		// is made (the server may be stopped before it reads it - restart class,
+		// loaded machine) is not "traffic the server has already accepted"
+		dgrams, events := pn.Snapshot()
+		delivered := map[int]bool{}
+		for _, ev := range events {
+			if ev.Kind == simnet.EvDeliver {
+				delivered[ev.Idx] = true
+			}
+		}
 		for _, d := range dgrams {
-			if d.From.Port != 7000 {
+			if d.From.Port != 7000 && delivered[d.Idx] {
 				udpCopy = append(udpCopy, d.Data)
 			}
 		}
@@ -291,7 +301,12 @@ func propReplay(c ReplayCase) (o pbt.Outcome) {
 	for _, d := range dgrams {
 		for _, a := range addrs {
 			if d.To.String() == a {
-				o.Failf("reply-udp", "the server sent a %d-byte datagram to %s in reply to replayed datagrams (recorded on the other transport: %v)", len(d.Data), a, c.Cross)
+				what := "undecodable"
+				keys2, _ := e2e.KeysFor(e2e.DefaultUsers, tStart, time.Now())
+				if seg, err := refproto.DecodeDatagram(d.Data, keys2); err == nil {
+					what = e2e.DescribeSeg(seg)
+				}
+				o.Failf("reply-udp", "the server sent a %d-byte datagram (%s) to %s in reply to replayed datagrams (recorded on the other transport: %v)", len(d.Data), what, a, c.Cross)
 				return
 			}
 		}
